@@ -2,9 +2,10 @@
    option, unit, list, prod, sumbool and comparison map to the OCaml types; N, Z, positive and nat
    stay inductive. *)
 From Coq Require Import Extraction ExtrOcamlBasic ZArith NArith.
-From LV Require Import Model.CheckedArith.
+From LV Require Import Model.CheckedArith Model.QuerySpec.
 Extraction Language OCaml.
 Separate Extraction
   BinInt.Z.add BinInt.Z.compare BinNat.N.add
   CheckedArith.perform_checked CheckedArith.checked_loop CheckedArith.eval_aexpr
-  CheckedArith.sum_partition CheckedArith.combine_i64 CheckedArith.sum_tree.
+  CheckedArith.sum_partition CheckedArith.combine_i64 CheckedArith.sum_tree
+  QuerySpec.valid QuerySpec.eval_query QuerySpec.eval_expr.
